@@ -26,3 +26,4 @@ def run(ck):
     conv.store_map(ck, "C17.R1")                       # patterns are stored raw: raw stores bypass the scale/bias map
     routes.who_writes_codes(ck, "C02.R1")
     fresh.no_hidden_state(ck, "C20.R8")                  # results depend on the documented state only (no caches / memos)
+    fresh.constructor_state(ck, "C20.R2")
